@@ -17,6 +17,7 @@ import (
 	"fmt"
 	"go/ast"
 	"go/constant"
+	"go/parser"
 	"go/printer"
 	"go/token"
 	"go/types"
@@ -73,6 +74,22 @@ type Out struct {
 	AuthEarlyInner    bool       `json:"auth_calls_inner_when_disabled"`
 	Problems          []string   `json:"problems"`
 	Packages          []string   `json:"packages"`
+	Privileges        []StmtPriv `json:"privileges"`
+}
+
+// one ExecutionPrivilege literal found in a RequiredPrivileges method
+type PrivEntry struct {
+	Admin     bool   `json:"admin"`
+	Name      string `json:"name"`      // "" or the expression that names the database (s.Database ...)
+	Privilege string `json:"privilege"` // ReadPrivilege | WritePrivilege | AllPrivileges | NoPrivileges | <expr>
+	Cond      string `json:"cond"`      // enclosing if-conditions ("" = unconditional)
+}
+
+type StmtPriv struct {
+	Type    string      `json:"type"`
+	Simple  bool        `json:"simple"` // body is exactly one `return ExecutionPrivileges{...}, nil`
+	Entries []PrivEntry `json:"entries"`
+	Calls   []string    `json:"calls"` // other RequiredPrivileges methods the body delegates to
 }
 
 var fset *token.FileSet
@@ -342,6 +359,7 @@ func main() {
 	scanServeHTTP(repo, httpd)
 	scanDirectMux(repo, pkgs)
 	scanCreds(repo, httpd)
+	scanPrivileges(repo)
 	if out.Problems == nil {
 		out.Problems = []string{}
 	}
@@ -1024,4 +1042,119 @@ func scanCreds(repo string, p *packages.Package) {
 		}
 		return true
 	})
+}
+
+// scanPrivileges reads every `func (s T) RequiredPrivileges() (ExecutionPrivileges, error)` of the influxql package
+// (go/parser only: the entries are literals whose meaning does not depend on types).
+func scanPrivileges(repo string) {
+	dir := filepath.Join(repo, "lib/util/lifted/influx/influxql")
+	pfset := token.NewFileSet()
+	pkgs, err := parser.ParseDir(pfset, dir, func(fi os.FileInfo) bool { return !strings.HasSuffix(fi.Name(), "_test.go") }, 0)
+	if err != nil {
+		problem("influxql: %v", err)
+		return
+	}
+	rnd := func(n ast.Node) string {
+		var b bytes.Buffer
+		_ = printer.Fprint(&b, pfset, n)
+		return strings.Join(strings.Fields(b.String()), " ")
+	}
+	for _, pk := range pkgs {
+		for _, f := range pk.Files {
+			for _, d := range f.Decls {
+				fd, ok := d.(*ast.FuncDecl)
+				if !ok || fd.Name.Name != "RequiredPrivileges" || fd.Recv == nil || len(fd.Recv.List) != 1 || fd.Body == nil {
+					continue
+				}
+				t := fd.Recv.List[0].Type
+				if st, ok := t.(*ast.StarExpr); ok {
+					t = st.X
+				}
+				sp := StmtPriv{Type: rnd(t), Entries: []PrivEntry{}, Calls: []string{}}
+				if len(fd.Body.List) == 1 {
+					if rs, ok := fd.Body.List[0].(*ast.ReturnStmt); ok && len(rs.Results) == 2 && rnd(rs.Results[1]) == "nil" {
+						if cl, ok := rs.Results[0].(*ast.CompositeLit); ok && rnd(cl.Type) == "ExecutionPrivileges" {
+							sp.Simple = true
+						}
+					}
+				}
+				var walk func(n ast.Node, conds []string)
+				entry := func(cl *ast.CompositeLit, conds []string) {
+					e := PrivEntry{Privilege: "NoPrivileges", Cond: strings.Join(conds, " && ")}
+					for _, el := range cl.Elts {
+						kv, ok := el.(*ast.KeyValueExpr)
+						if !ok {
+							problem("influxql %s.RequiredPrivileges: positional ExecutionPrivilege literal", sp.Type)
+							continue
+						}
+						v := rnd(kv.Value)
+						switch rnd(kv.Key) {
+						case "Admin":
+							e.Admin = v == "true"
+							if v != "true" && v != "false" {
+								problem("influxql %s.RequiredPrivileges: Admin is not a literal: %s", sp.Type, v)
+							}
+						case "Name":
+							e.Name = strings.Trim(v, "\"")
+						case "Privilege":
+							e.Privilege = v
+						}
+					}
+					sp.Entries = append(sp.Entries, e)
+				}
+				walk = func(n ast.Node, conds []string) {
+					switch x := n.(type) {
+					case nil:
+						return
+					case *ast.IfStmt:
+						walk(x.Init, conds)
+						walk(x.Body, append(append([]string{}, conds...), rnd(x.Cond)))
+						if x.Else != nil {
+							walk(x.Else, append(append([]string{}, conds...), "!("+rnd(x.Cond)+")"))
+						}
+						return
+					case *ast.CompositeLit:
+						tn := ""
+						if x.Type != nil {
+							tn = rnd(x.Type)
+						}
+						if tn == "ExecutionPrivilege" {
+							entry(x, conds)
+							return
+						}
+						if tn == "ExecutionPrivileges" {
+							for _, el := range x.Elts {
+								if cl, ok := el.(*ast.CompositeLit); ok {
+									entry(cl, conds)
+								}
+							}
+							return
+						}
+					case *ast.CallExpr:
+						if sel, ok := x.Fun.(*ast.SelectorExpr); ok && sel.Sel.Name == "RequiredPrivileges" {
+							sp.Calls = append(sp.Calls, rnd(x.Fun))
+						}
+					case *ast.AssignStmt:
+						// ep[0].Privilege = X style adjustments
+						for i, lhs := range x.Lhs {
+							if sel, ok := lhs.(*ast.SelectorExpr); ok && i < len(x.Rhs) && (sel.Sel.Name == "Privilege" || sel.Sel.Name == "Admin" || sel.Sel.Name == "Name") {
+								sp.Entries = append(sp.Entries, PrivEntry{Name: "assign " + rnd(lhs), Privilege: rnd(x.Rhs[i]), Cond: strings.Join(conds, " && ")})
+							}
+						}
+					}
+					// generic descent over children
+					ast.Inspect(n, func(c ast.Node) bool {
+						if c == n || c == nil {
+							return true
+						}
+						walk(c, conds)
+						return false
+					})
+				}
+				walk(fd.Body, nil)
+				out.Privileges = append(out.Privileges, sp)
+			}
+		}
+	}
+	sort.Slice(out.Privileges, func(i, j int) bool { return out.Privileges[i].Type < out.Privileges[j].Type })
 }
